@@ -320,6 +320,14 @@ func (x *xf) post(c *astutil.Cursor) bool {
 			x.recvExpr(c, n)
 		}
 	case *ast.CallExpr:
+		if sel, ok := n.Fun.(*ast.SelectorExpr); ok && sel.Sel.Name == "Dial" {
+			if id, ok := sel.X.(*ast.Ident); ok {
+				if pn, ok := x.info.Uses[id].(*types.PkgName); ok && pn.Imported().Path() == "github.com/gomodule/redigo/redis" {
+					n.Fun = vs("RedisDial")
+					x.needVS, x.changed = true, true
+				}
+			}
+		}
 		if id, ok := n.Fun.(*ast.Ident); ok && id.Name == "close" && len(n.Args) == 1 {
 			if _, isB := x.info.Uses[id].(*types.Builtin); isB {
 				n.Fun = vs("Close")
